@@ -192,7 +192,7 @@ Let R (a b : list section) (fs : list F) : Prop :=
 Lemma driver_R : forall fuel todo out fs, drive detect reex fuel todo = Some (out, fs) -> R todo out fs.
 Proof.
   apply drive_rel_simple; unfold R.
-  - intros _ _. repeat split; auto.
+  - intros _ _. split; [auto|]. split; constructor.
   - intros x a b fs IH Hi Hq. inversion Hi; subst. inversion Hq; subst.
     destruct (IH ltac:(assumption) ltac:(assumption)) as (Ht & Hqb & Hib).
     repeat split.
